@@ -11,6 +11,7 @@ Generic rule names emitted (mapped to property rule ids by C01/C02/C08/C09):
   OUTRANGE nothing is written outside the documented output range on any path
   INRANGE nothing is read beyond the declared input (memory safety only: C06)
   NONCE2  SIV second-pass nonce composition
+  WIPESTART check_tag receives the start of the plaintext buffer (C04's R-C04-ARGS decides it; listed for C02/C09 conformance only)
   RT      decrypt returns check_tag's verdict on the tag just generated; no unresolved access (needed by the round trip whatever the cipher is)
 """
 import re
@@ -552,7 +553,9 @@ def check_cipher(ck, mod, f, label, rulemap):
             bo = p.env.get(("back", out_cur[1])) if not s_out else Lf.s(out_cur)
             bn = p.env.get(("back", ints[0].id))
             adv = bn.add(Lf.s(rem), -1).const() if bn is not None and not is_word(bn) else None
-            r = -adv if adv is not None and adv < 0 and (-adv) % 4 == 0 and -adv <= 256 else 4
+            if adv is not None and adv < 0 and ((-adv) % 4 != 0 or -adv > 256):
+                raise Broken("%s: an iteration of the data loop consumes %d bytes: chunked processing beyond 64 words per iteration is not analysed" % (f.name, -adv))
+            r = -adv if adv is not None and adv < 0 else 4
             name = "block" if r == 4 and len(heads) == 1 else "block%d" % r
             okg = any(cc[0] == "uge" and cc[2] and cc[1] == Lf({rem: 1, 1: -r}) for cc in p.conds)
             c.ob(okg, "ADVANCE", "guard" if name == "block" else "guard(%s)" % name, "%d bytes are processed only when at least %d remain" % (r, r), "loop guard is not 'remaining >= %d'" % r)
@@ -694,7 +697,7 @@ def check_cipher(ck, mod, f, label, rulemap):
                     want_ptr = ch[0][5]        # addressed from the entry values: c + clen - 8 is the tag position by definition
                 c.ob(ch[0][5] == want_ptr and ch[0][6] == 8, "TAGPOS", "%s-received-tag" % name, "received tag read right after the %d ciphertext byte(s) of this tail (8 bytes)" % r,
                      "received tag is read at %s (%s bytes), expected %s" % (ch[0][5], ch[0][6], want_ptr))
-                c.ob(ch[0][2] == repr(Lf.s(A["m"])), "RT", "%s-wipe-start" % name, "check_tag gets the start of the plaintext buffer", "check_tag gets %s as plaintext pointer" % ch[0][2])
+                c.ob(ch[0][2] == repr(Lf.s(A["m"])), "WIPESTART", "%s-wipe-start" % name, "check_tag gets the start of the plaintext buffer", "check_tag gets %s as plaintext pointer" % ch[0][2])
             wr = {k[1] for k in outs if k[0] == out_cur}
             c.ob(wr == set(range(r)) and all(k[0] == out_cur for k in outs), "OUTRANGE", "%s-writes" % name, "exactly plaintext bytes [0,%d) written in the tail" % r,
                  "the tail writes output %s (expected exactly [0,%d) at the cursor)" % (sorted(outs, key=repr)[:6], r))
